@@ -52,6 +52,9 @@ def configs() -> list[dict[str, Any]]:
     out.append({"name": "nelder-mead", "optimizer": "nelder-mead", "samplers": [("norm", False)]})
     out.append({"name": "de:seeded", "optimizer": "differential_evolution", "samplers": [("norm", False)]})
     out.append({"name": "de:seeded:parallel", "optimizer": "differential_evolution", "samplers": [("norm", False)], "parallel": True})
+    # boundary seeds: 0 is an explicit seed like any other, for the optimizer option and for the gradient seed
+    out.append({"name": "de:seed0", "optimizer": "differential_evolution", "samplers": [("norm", False)], "de_seed": 0})
+    out.append({"name": "slsqp:uniform:gseed0", "optimizer": "slsqp", "samplers": [("uniform", False)], "gseed": 0})
     return out
 
 
@@ -62,7 +65,7 @@ def build(cfg: dict[str, Any], seed: int) -> dict[str, Any]:
     elif cfg["optimizer"] == "nelder-mead":
         optimizer["options"] = {"maxiter": 3}
     else:
-        optimizer["options"] = {"maxiter": 1, "popsize": 2, "seed": 77}
+        optimizer["options"] = {"maxiter": 1, "popsize": 2, "seed": cfg.get("de_seed", 77)}
         optimizer["parallel"] = bool(cfg.get("parallel"))
     config: dict[str, Any] = {
         "variables": {"initial_values": [0.5, -0.25, 1.0], "lower_bounds": [-5.0] * 3, "upper_bounds": [5.0] * 3},
@@ -312,6 +315,7 @@ def run_shard(shard: dict[str, Any]) -> core.ShardResult:
     rec = Recorder(shard)
     cfg_index, seed = shard["cfg"], shard["seed"]
     cfg = configs()[cfg_index]
+    seed = cfg.get("gseed", seed)
     bound = 1 if shard["tier"] == "quick" else 2
     for choices, chooser, run in explore(lambda ch: run_a(cfg, seed, ch), bound):
         case = {"kind": "deviation", "cfg": cfg_index, "seed": seed, "choices": choices}
